@@ -590,6 +590,16 @@ impl JsValue {
         if n.is_nan() { 0.0 } else { math::trunc(n) }
     }
 
+    /// Convert to a 32-bit unsigned integer (ToUint32): NaN, +Infinity and -Infinity become 0,
+    /// every other number is truncated towards zero and wrapped modulo 2^32.
+    pub fn to_uint32(&self) -> u32 {
+        let n = self.to_number();
+        if !n.is_finite() {
+            return 0;
+        }
+        math::rem_euclid(math::trunc(n), 4294967296.0) as u32
+    }
+
     /// Convert to string (ToString)
     /// Note: Prefer using `Interpreter::to_js_string()` which uses interned strings.
     /// This method is kept for internal use in value.rs, Debug impl, and tests.
